@@ -36,7 +36,7 @@ type C12Scenario struct {
 	Ops         []C12Op      `json:"ops"`
 }
 
-var c12Topologies = []string{"cname-chain", "cname-cycle", "dname-pingpong", "glueless-cycle", "fanout", "deep", "lame", "many-keys", "nsec3-iter", "mixed"}
+var c12Topologies = []string{"cname-chain", "cname-cycle", "dname-pingpong", "glueless-cycle", "fanout", "deep", "lame", "many-keys", "nsec3-iter", "mixed", "v6-fanout"}
 
 func init() {
 	kit.Register(&kit.Prop{
@@ -75,6 +75,17 @@ func genC12(r *kit.RNG) *C12Scenario {
 	if sc.Topology == "many-keys" || sc.Topology == "nsec3-iter" {
 		sc.Signed = true
 	}
+	if sc.Topology == "v6-fanout" {
+		// IPv6 access on: a referral with many in-zone name servers and IPv4 glue only arms the
+		// detached helper that looks up their AAAA records; its lookups belong to the request
+		// that started it and count against the same budgets
+		sc.Lame = ""
+		sc.N = r.Range(6, 14)
+		sc.MaxOutbound = uint32(kit.Pick(r, []int{4, 5, 6, 8}))
+		if r.Chance(0.8) {
+			sc.Mode = "enforce"
+		}
+	}
 	if sc.Lame == "shallow-referral" {
 		// the restart-without-minimisation path: needs minimisation on and a budget it can cross
 		sc.Topology, sc.Signed = "lame", false
@@ -102,6 +113,8 @@ func c12Names(sc *C12Scenario) []string {
 		return []string{"www.ga.test.", "www.gb.test."}
 	case "fanout":
 		return []string{"www.fan.test."}
+	case "v6-fanout":
+		return []string{"www.six6.test.", "mail.six6.test."}
 	case "deep":
 		return []string{"www." + strings.Repeat("s.", sc.N) + "deep.test."}
 	case "lame":
@@ -170,6 +183,18 @@ func c12Spec(sc *C12Scenario) *world.Spec {
 		ad[0] = addr()
 		sp.Zones = append(sp.Zones, world.ZoneSpec{Name: "fan.test.", NSNames: ns, Addrs: ad, NoGlue: true, Signed: sc.Signed, Alg: alg, KeyIdx: 32, Secure: true,
 			Records: []string{"www.fan.test. 60 IN A 192.0.2.203"}})
+	}
+	if top == "v6-fanout" {
+		var ns, ad, recs []string
+		for i := 0; i < sc.N; i++ {
+			host := fmt.Sprintf("ns%d.six6.test.", i)
+			a := addr()
+			ns, ad = append(ns, host), append(ad, a)
+			recs = append(recs, fmt.Sprintf("%s 3600 IN A %s", host, a))
+		}
+		recs = append(recs, "www.six6.test. 60 IN A 192.0.2.208", "mail.six6.test. 60 IN A 192.0.2.209")
+		sp.Zones = append(sp.Zones, world.ZoneSpec{Name: "six6.test.", NSNames: ns, Addrs: ad, Signed: sc.Signed, Alg: alg, KeyIdx: 33, Secure: true, Records: recs})
+		sp.Cfg.IPv6 = true
 	}
 	if top == "deep" {
 		name := "deep.test."
